@@ -269,6 +269,8 @@ def history_st(draw, max_steps):
                     continue
             except Exception:
                 pass
+            if s["op"] == "matmul" and "split_every" in cfg and "KF-matmul-tree-depth-config-drift" in exclusions._open_ids():
+                cfg = {k: v for k, v in cfg.items() if k != "split_every"}  # region of a listed finding
             step = {"k": "build", "stmt": s, "cfg": cfg}
         elif kind == "compute_many":
             step = {"k": kind, "vs": D_.subset(built, 2, 3), "cfg": cfg}
@@ -282,6 +284,23 @@ def history_st(draw, max_steps):
         if h.fails:
             break
     return {"leaves": leaves, "steps": steps}, h.fails, sorted(h.labels)
+
+
+def region_matmul_split_every(case):
+    """A matmul built while a `split_every` configuration is in effect (its reduction-tree depth is
+    frozen from the construction-time block count) in a history that also changes chunk unification."""
+    built = any(s["k"] == "build" and s["stmt"]["op"] == "matmul" and "split_every" in s.get("cfg", {}) for s in case["steps"])
+    unify = any(any(k.startswith("array.unify-chunks") for k in s.get("cfg", {})) for s in case["steps"])
+    return built and unify
+
+
+def _register():
+    from vf import known
+
+    known.PREDICATES["c09:KF-matmul-tree-depth-config-drift"] = region_matmul_split_every
+
+
+_register()
 
 
 def run_shard(spec, seed):
